@@ -269,6 +269,35 @@ func Solve(script string, dir string, name string, timeoutS int) SolverResult {
 			best = x
 		}
 	}
+	if best.Status == "sat" {
+		return best
+	}
+	// second chance before an obligation is reported undecided: nobody answered
+	// (timeouts under load, or a search that went the wrong way); same script,
+	// other seeds, twice the time. Costs nothing on obligations that discharge.
+	ch2 := make(chan SolverResult, 2)
+	retry := []solverSpec{
+		{"z3(seed)", func(f string, t int) []string {
+			return []string{"z3", "-smt2", fmt.Sprintf("-T:%d", t), "smt.random_seed=11", "sat.random_seed=11", f}
+		}},
+		{"z3-new(seed)", func(f string, t int) []string {
+			return []string{"z3-new", "-smt2", fmt.Sprintf("-T:%d", t), "smt.random_seed=11", "sat.random_seed=11", f}
+		}},
+	}
+	for _, sp := range retry {
+		sp := sp
+		go func() { ch2 <- runOne(rctx, sp, file, 2*timeoutS) }()
+	}
+	for range retry {
+		x := <-ch2
+		addSolverStat(x.Solver, x.Secs, x.Status == "unsat" || x.Status == "sat")
+		if x.Status == "unsat" {
+			return x
+		}
+		if x.Status == "sat" {
+			best = x
+		}
+	}
 	return best
 }
 
